@@ -772,9 +772,9 @@ Section Proofs.
               repeat match goal with
                      | |- context [match ?k with _ => _ end] => destruct k
                      end;
-              try discriminate; intros [= <- <-]; (split; [apply st_le_refl|]); intros M _ _; apply LF; [reflexivity | solve [auto]]).
+              try discriminate; intros [= <- <-]; (split; [apply st_le_refl|]); intros M _ _; (apply LF; [reflexivity | solve [auto]])).
     all: try (cbv [is_theory_relation]; unfold walk_theory_op; destruct (tc _) as [[]|]; try discriminate;
-              intros [= <- <-]; (split; [apply st_le_refl|]); intros M _ _; apply LF; [reflexivity | solve [auto]]).
+              intros [= <- <-]; (split; [apply st_le_refl|]); intros M _ _; (apply LF; [reflexivity | solve [auto]])).
     - (* and *)
       destruct rs as [|r0 [|r1 rs']].
       + destruct (unpack []) as [ps|] eqn:U; [|discriminate]. apply (AND ps eq_refl).
@@ -807,9 +807,6 @@ Section Proofs.
       destruct (key_var_in _ _ _ _ M K HM) as (_ & n & -> & Hin & _).
       inversion HF as [|x ? args' ? Hx HF']; subst. inversion HF' as [|y ? args'' ? Hy HF'']; subst. inversion HF''; subst.
       now apply iff_good.
-    - (* symbol *)
-      intros [= <- <-]. split; [apply st_le_refl|]. intros M _ _. apply LF; auto.
-      unfold bool_symbol. destruct (ty_eqb t TBool); auto.
     - (* function *)
       unfold walk_function. destruct t; try discriminate. cbn beta iota. intros [= <- <-].
       split; [apply st_le_refl|]. intros M _ _. apply LF; auto. destruct (ty_eqb t TBool); auto.
@@ -823,5 +820,1041 @@ Section Proofs.
         inversion HF as [|x ? args' ? Hx HF']; subst. inversion HF' as [|y ? args'' ? Hy HF'']; subst.
         inversion HF'' as [|z ? args''' ? Hz HF''']; subst. inversion HF'''; subst.
         now apply ite_good.
+    - (* string operators and relations *)
+      destruct k; cbv [is_theory_relation]; unfold walk_theory_op; try destruct (forallb is_ph rs);
+        try (destruct (tc _) as [[]|]); try discriminate; intros [= <- <-]; (split; [apply st_le_refl|]);
+        intros M _ _; (apply LF; [reflexivity | solve [auto]]).
+  Qed.
+
+  Lemma cnf_walk_unfold o args st :
+    cnf_walk asimp (T o args) st =
+    match walk_list (cnf_walk asimp) args st with
+    | None => None
+    | Some (rs, st1) => cnf_node asimp (T o args) rs st1
+    end.
+  Proof. reflexivity. Qed.
+
+  Theorem cnf_walk_good : forall t st r st', cnf_walk asimp t st = Some (r, st') ->
+    st_le st st' /\ forall M, extends (intro st') M -> Good M t r.
+  Proof.
+    induction t as [o args IH] using term_ind'. intros st r st' H. rewrite cnf_walk_unfold in H.
+    destruct (walk_list (cnf_walk asimp) args st) as [[rs s1]|] eqn:E; [|discriminate].
+    destruct (walk_list_good _ Good args IH _ _ _ E) as [L1 F1].
+    destruct (cnf_node_good _ _ _ _ _ _ H) as [L2 F2].
+    split; [eapply st_le_trans; eauto|]. intros M HM. apply F2; auto. apply F1. eapply st_le_extends; eauto.
+  Qed.
+
+  (* ---------------------------------------------------------------- top level: convert *)
+  (* what the clean-up needs from a walk (both converters provide it) *)
+  Definition TopGood (M : list (term * string)) (f key : term) (cl : list (list term)) : Prop :=
+    (forall I, NoDup (map snd M) -> leaf_stable I M f -> sat (ext I M) cl = true /\ tv (ext I M) key = tv I f) /\
+    (forall J, sat J cl = true -> tv J key = true -> tv J f = true) /\
+    (cl = [] \/ symlit (map snd M) key) /\
+    LitsOk M f key cl.
+  Definition walk_ok (w : term -> cstate -> option (res * cstate)) (f : term) : Prop :=
+    forall st key cl st', w f st = Some (R key cl, st') -> st_le st st' /\ TopGood (intro st') f key cl.
+
+  Lemma cnf_walk_ok f : walk_ok (cnf_walk asimp) f.
+  Proof.
+    intros st key cl st' H. destruct (cnf_walk_good _ _ _ _ H) as [L G]. split; auto.
+    destruct (G _ (extends_refl _)) as (C & S & K & Li). split; [|split; [|split]]; auto.
+    intros J Hs Hk. now rewrite <- (S J Hs).
+  Qed.
+
+  (* I' agrees with I except on the symbols named in N *)
+  Definition agrees_off (N : list string) (I I' : interp) : Prop :=
+    ifun I' = ifun I /\ rdiv0 I' = rdiv0 I /\ idiv0 I' = idiv0 I /\
+    forall n ty, ~ In n N -> isym I' n ty = isym I n ty.
+  (* the manager knows every symbol of f, and the converter object is new *)
+  Definition start_ok (f : term) (st : cstate) : Prop :=
+    intro st = [] /\ forall n ty, In (n, ty) (fv f) -> In n (mnames (mgr st)).
+
+  Lemma start_facts f st st' : start_ok f st -> st_le st st' ->
+    NoDup (map snd (intro st')) /\
+    (forall n, In n (map snd (intro st')) -> ~ In n (mnames (mgr st)) /\ ~ In (n, TBool) (fv f)).
+  Proof.
+    intros [Hi Hn] ((D & E & F) & _ & W). rewrite Hi in E. cbn in E. split.
+    - apply W. split; rewrite Hi; cbn; [constructor | intros ? []].
+    - intros n Hin. rewrite E in Hin. apply in_map_iff in Hin. destruct Hin as ([g m] & <- & Hgm). cbn.
+      pose proof (F g m Hgm) as Hf. split; auto. intros H. apply Hf. eapply Hn; eauto.
+  Qed.
+
+  Lemma ext_agrees I M : agrees_off (map snd M) I (ext I M).
+  Proof.
+    repeat split; auto. intros n ty Hn. cbn. destruct (ty_eqb ty TBool); auto.
+    destruct (byname n M) as [g|] eqn:B; auto. exfalso. apply Hn. apply byname_In in B. eapply In_names; eauto.
+  Qed.
+
+  Lemma fresh_leaf_stable I (M : list (term * string)) f : (forall n, In n (map snd M) -> ~ In (n, TBool) (fv f)) -> leaf_stable I M f.
+  Proof.
+    intros Hf a Ha. unfold tv. f_equal. apply (same_off_eval (map snd M)); [apply ext_same_off|].
+    intros n Hn Hin. apply (Hf n Hn). eapply leaves_fv; eauto.
+  Qed.
+  Lemma fresh_leaf_litok (M : list (term * string)) f : (forall n, In n (map snd M) -> ~ In (n, TBool) (fv f)) ->
+    forall a, In a (leaves f) -> litok (map snd M) a.
+  Proof.
+    intros Hf a Ha. right. intros J J' HJ. unfold tv. f_equal. apply (same_off_eval (map snd M)); auto.
+    intros n Hn Hin. apply (Hf n Hn). eapply leaves_fv; eauto.
+  Qed.
+
+  Lemma csat_true_iff I c : csat I c = true <-> exists l, In l c /\ tv I l = true.
+  Proof. apply existsb_exists. Qed.
+
+  Lemma cleanup_complete E tl cl : sat E cl = true -> tv E tl = true -> sat E (cleanup asimp tl cl) = true.
+  Proof.
+    intros Hs Ht. unfold cleanup. destruct cl as [|c0 cl0] eqn:Ecl.
+    - cbn. now rewrite Ht.
+    - rewrite <- Ecl in *. clear Ecl c0 cl0. destruct (existsb is_nil cl) eqn:En.
+      + apply existsb_exists in En. destruct En as (c & Hc & Hn). destruct c; [|discriminate].
+        pose proof (sat_In _ _ _ Hs Hc). discriminate.
+      + unfold sat. apply forallb_forall. intros c' Hc'. apply in_flat_map in Hc'. destruct Hc' as (c & Hc & Hin).
+        unfold clean_clause in Hin. destruct (existsb (fun l => ctrue l || term_eqb l tl) c); [destruct Hin|].
+        destruct (filter (fun l => negb (term_eqb l (neg_lit tl)) && negb (cfalse l)) c) as [|x r] eqn:Ef; [destruct Hin|].
+        destruct Hin as [<-|[]]. rewrite <- Ef. apply csat_true_iff.
+        pose proof (sat_In _ _ _ Hs Hc) as Hcs. apply csat_true_iff in Hcs. destruct Hcs as (l & Hl & Hv).
+        exists l. split; auto. apply filter_In. split; auto. apply andb_true_iff. split; apply negb_true_iff.
+        * destruct (term_eqb l (neg_lit tl)) eqn:Eq; auto. apply term_eqb_eq in Eq. subst.
+          rewrite neg_lit_tv, Ht in Hv. discriminate.
+        * destruct (cfalse l) eqn:Eq; auto. rewrite (cfalse_tv _ _ Eq) in Hv. discriminate.
+  Qed.
+
+  (* C11, completeness: every interpretation satisfying the input extends over the fresh symbols
+     to one satisfying the output *)
+  Theorem convert_complete w f st cl st' I : walk_ok w f -> start_ok f st ->
+    convert_with asimp w f st = Some (cl, st') -> holds I f ->
+    exists I', agrees_off (map snd (intro st')) I I' /\ sat I' cl = true /\
+               (forall n, In n (map snd (intro st')) -> ~ In n (mnames (mgr st))).
+  Proof.
+    intros Hw Hst Hc Hf. unfold convert_with in Hc.
+    destruct (w f st) as [[[|tl cl0] s1]|] eqn:E; try discriminate. injection Hc as <- <-.
+    destruct (Hw _ _ _ _ E) as [Hle (C & _)]. destruct (start_facts _ _ _ Hst Hle) as [Hnd Hfr].
+    exists (ext I (intro s1)). split; [apply ext_agrees|]. split; [|intros n Hn; apply Hfr; auto].
+    destruct (C I Hnd) as [Hs Hk]; [apply fresh_leaf_stable; intros n Hn; apply Hfr; auto|].
+    apply cleanup_complete; auto. rewrite Hk. now apply holds_tv.
+  Qed.
+
+  Lemma tv_bind1_other J n b l m : m <> n -> (l = TSym m TBool \/ l = T ONot [TSym m TBool]) ->
+    tv (bind1 J (n, TBool) (VBool b)) l = tv J l.
+  Proof.
+    intros Hm [-> | ->]; rewrite ?tv_not, !tv_sym; cbn;
+      (destruct (String.eqb m n) eqn:E; [apply String.eqb_eq in E; contradiction | reflexivity]).
+  Qed.
+  Lemma bind1_same_off J n b N : In n N -> same_off N J (bind1 J (n, TBool) (VBool b)).
+  Proof.
+    intros Hn. repeat split; auto. intros m ty Hm. cbn.
+    destruct (String.eqb m n) eqn:E1; auto. destruct (ty_eqb ty TBool) eqn:E2; auto.
+    apply String.eqb_eq in E1. apply ty_eqb_eq in E2. subst. exfalso. apply Hm. auto.
+  Qed.
+
+  Lemma cleanup_sound N f tl cl J :
+    (forall J', sat J' cl = true -> tv J' tl = true -> tv J' f = true) ->
+    (cl = [] \/ symlit N tl) -> Forall (Forall (litok N)) cl ->
+    (forall n, In n N -> ~ In (n, TBool) (fv f)) ->
+    emptied asimp tl cl = false -> sat J (cleanup asimp tl cl) = true -> tv J f = true.
+  Proof.
+    intros S K L Hfr Hem Hs. unfold cleanup in Hs. unfold emptied in Hem.
+    destruct cl as [|c0 cl0] eqn:Ecl.
+    - cbn in Hs. rewrite orb_false_r, andb_true_r in Hs. apply S; auto.
+    - rewrite <- Ecl in *. destruct K as [K|K]; [congruence|]. clear Ecl c0 cl0.
+      destruct (existsb is_nil cl) eqn:En; [discriminate|]. cbn [negb andb] in Hem.
+      destruct K as (n & Hn & Htl).
+      set (b := match tl with T ONot _ => false | _ => true end).
+      set (J' := bind1 J (n, TBool) (VBool b)).
+      assert (HJ : same_off N J J') by (apply bind1_same_off; auto).
+      assert (Ht : tv J' tl = true).
+      { destruct Htl as [-> | ->]; subst b J'; rewrite ?tv_not, tv_sym; cbn; now rewrite String.eqb_refl. }
+      assert (Hntl : neg_lit tl = TSym n TBool \/ neg_lit tl = T ONot [TSym n TBool]).
+      { destruct Htl as [-> | ->]; [right|left]; reflexivity. }
+      assert (Hne : neg_lit tl <> tl).
+      { destruct Htl as [-> | ->]; discriminate. }
+      assert (Hs' : sat J' cl = true).
+      { unfold sat. apply forallb_forall. intros c Hc.
+        destruct (clean_clause tl (neg_lit tl) c) as [[|x r]|] eqn:Ecc.
+        - exfalso.
+          assert (X : existsb (fun c => match clean_clause tl (neg_lit tl) c with Some [] => true | _ => false end) cl = true).
+          { apply existsb_exists. exists c. split; auto. now rewrite Ecc. }
+          congruence.
+        - assert (Hin : In (x :: r) (flat_map (fun c => match clean_clause tl (neg_lit tl) c with
+                                                        | Some (x :: r) => [x :: r] | _ => [] end) cl)).
+          { apply in_flat_map. exists c. split; auto. rewrite Ecc. now left. }
+          pose proof (sat_In _ _ _ Hs Hin) as Hcs. apply csat_true_iff in Hcs. destruct Hcs as (l & Hl & Hv).
+          unfold clean_clause in Ecc.
+          destruct (existsb (fun l => ctrue l || term_eqb l tl) c) eqn:Ex; [discriminate|].
+          injection Ecc as Ecc. rewrite <- Ecc in Hl. apply filter_In in Hl. destruct Hl as [Hlc Hlf].
+          apply andb_true_iff in Hlf. destruct Hlf as [Hl1 _]. apply negb_true_iff in Hl1.
+          assert (Hl2 : term_eqb l tl = false).
+          { destruct (term_eqb l tl) eqn:Eq; auto. exfalso.
+            assert (X : existsb (fun l => ctrue l || term_eqb l tl) c = true).
+            { apply existsb_exists. exists l. split; auto. rewrite Eq. apply orb_true_r. }
+            congruence. }
+          apply csat_true_iff. exists l. split; auto.
+          rewrite Forall_forall in L. pose proof (L c Hc) as Lc. rewrite Forall_forall in Lc.
+          destruct (Lc l Hlc) as [(m & Hm & Hlm)|Hst].
+          + destruct (String.eqb m n) eqn:Emn.
+            * apply String.eqb_eq in Emn. subst m. exfalso.
+              assert (l = tl \/ l = neg_lit tl).
+              { destruct Htl as [-> | ->]; destruct Hlm as [-> | ->]; auto. }
+              destruct H as [-> | ->]; [rewrite term_eqb_refl in Hl2 | rewrite term_eqb_refl in Hl1]; discriminate.
+            * subst J'. rewrite (tv_bind1_other J n b l m); auto. intros ->. rewrite String.eqb_refl in Emn. discriminate.
+          + rewrite <- (Hst J J' HJ). exact Hv.
+        - unfold clean_clause in Ecc.
+          destruct (existsb (fun l => ctrue l || term_eqb l tl) c) eqn:Ex; [|discriminate].
+          apply existsb_exists in Ex. destruct Ex as (l & Hl & Hor). apply csat_true_iff. exists l. split; auto.
+          apply orb_true_iff in Hor. destruct Hor as [H|H]; [now apply ctrue_tv|].
+          apply term_eqb_eq in H. now subst. }
+      pose proof (S J' Hs' Ht) as Hf. unfold tv in *. rewrite (same_off_eval N J J' f HJ Hfr). exact Hf.
+  Qed.
+
+  Lemma top_lits_ok w f st key cl st' : walk_ok w f -> start_ok f st -> w f st = Some (R key cl, st') ->
+    Forall (Forall (litok (map snd (intro st')))) cl.
+  Proof.
+    intros Hw Hst E. destruct (Hw _ _ _ _ E) as [Hle (_ & _ & _ & Li)].
+    destruct (start_facts _ _ _ Hst Hle) as [_ Hfr].
+    apply (Li (litok (map snd (intro st')))).
+    - intros a Ha. now apply litok_neg.
+    - intros n Hn. split; left; exists n; auto.
+    - right. intros J J' _. reflexivity.
+    - right. intros J J' _. reflexivity.
+    - apply fresh_leaf_litok. intros n Hn. apply Hfr; auto.
+  Qed.
+
+  (* C11, soundness - the provable part: when the clean-up empties no clause *)
+  Theorem convert_sound_partial w f st cl st' J : walk_ok w f -> start_ok f st ->
+    convert_with asimp w f st = Some (cl, st') -> emptied_with asimp w f st = false ->
+    sat J cl = true -> holds J f.
+  Proof.
+    intros Hw Hst Hc Hem Hs. unfold convert_with in Hc. unfold emptied_with in Hem.
+    destruct (w f st) as [[[|tl cl0] s1]|] eqn:E; try discriminate. injection Hc as <- <-.
+    pose proof (top_lits_ok _ _ _ _ _ _ Hw Hst E) as L.
+    destruct (Hw _ _ _ _ E) as [Hle (_ & S & K & _)]. destruct (start_facts _ _ _ Hst Hle) as [_ Hfr].
+    apply holds_tv. apply (cleanup_sound (map snd (intro s1)) f tl cl0 J); auto.
+    intros n Hn. apply Hfr; auto.
+  Qed.
+
+  (* ... and where it does empty one, the input is unsatisfiable: FALSE_CNF was the right answer *)
+  Theorem convert_emptied_unsat w f st I : walk_ok w f -> start_ok f st ->
+    emptied_with asimp w f st = true -> ~ holds I f.
+  Proof.
+    intros Hw Hst Hem Hf. unfold emptied_with in Hem.
+    destruct (w f st) as [[[|tl cl0] s1]|] eqn:E; try discriminate.
+    destruct (Hw _ _ _ _ E) as [Hle (C & _)]. destruct (start_facts _ _ _ Hst Hle) as [Hnd Hfr].
+    destruct (C I Hnd) as [Hs Hk]; [apply fresh_leaf_stable; intros n Hn; apply Hfr; auto|].
+    apply holds_tv in Hf. rewrite Hf in Hk.
+    unfold emptied in Hem. apply andb_true_iff in Hem. destruct Hem as [_ Hem].
+    apply existsb_exists in Hem. destruct Hem as (c & Hc & Hcc).
+    unfold clean_clause in Hcc. destruct (existsb (fun l => ctrue l || term_eqb l tl) c); [discriminate|].
+    destruct (filter (fun l => negb (term_eqb l (neg_lit tl)) && negb (cfalse l)) c) as [|x r] eqn:Ef; [|discriminate].
+    pose proof (sat_In _ _ _ Hs Hc) as Hcs. apply csat_true_iff in Hcs. destruct Hcs as (l & Hl & Hv).
+    assert (Hin : In l (filter (fun l => negb (term_eqb l (neg_lit tl)) && negb (cfalse l)) c)).
+    { apply filter_In. split; auto. apply andb_true_iff. split; apply negb_true_iff.
+      - destruct (term_eqb l (neg_lit tl)) eqn:Eq; auto. apply term_eqb_eq in Eq. subst.
+        rewrite neg_lit_tv, Hk in Hv. discriminate.
+      - destruct (cfalse l) eqn:Eq; auto. rewrite (cfalse_tv _ _ Eq) in Hv. discriminate. }
+    rewrite Ef in Hin. destruct Hin.
+  Qed.
+
+  (* ---------------------------------------------------------------- shape *)
+  Definition shape_hyp : Prop := forall t, atomic t = true -> litc (asimp t) = true.
+
+  Lemma litc_not_atomic a : litc a = true -> (exists y, a = T ONot [y] /\ atomic y = true) \/ (atomic a = true /\ litc a = atomic a).
+  Proof.
+    destruct a as [o args]. destruct o; cbn; auto.
+    destruct args as [|y [|z r]]; cbn; auto. intros H. left. eauto.
+  Qed.
+  Lemma atomic_litc y : atomic y = true -> litc y = true.
+  Proof. destruct y as [o args]. destruct o; cbn; auto. discriminate. Qed.
+  Lemma litc_negate x : litc x = true -> litc (negate x) = true.
+  Proof.
+    intros H. destruct (litc_not_atomic _ H) as [(y & -> & Hy)|[Ha _]].
+    - cbn. now apply atomic_litc.
+    - destruct x as [o args]. destruct o; try exact Ha; try discriminate.
+      destruct args; [reflexivity | exact Ha].
+  Qed.
+  Lemma litc_simplify_atomic y : shape_hyp -> atomic y = true -> litc (simplify y) = true.
+  Proof.
+    intros Hsh Hy. destruct y as [o args]. destruct o; try (apply Hsh; exact Hy); try discriminate.
+    - reflexivity.
+    - destruct args; [reflexivity | apply Hsh; exact Hy].
+  Qed.
+  Lemma litc_closed : shape_hyp -> lit_closed (fun l => litc l = true).
+  Proof.
+    intros Hsh a Ha. destruct (litc_not_atomic _ Ha) as [(y & -> & Hy)|[Hat Heq]].
+    - split.
+      + unfold Cnf.neg_lit. cbn [mk_not]. now apply litc_simplify_atomic.
+      + cbn [mk_not]. now apply atomic_litc.
+    - assert (Hm : mk_not a = T ONot [a]).
+      { destruct a as [o args]. destruct o; try reflexivity. discriminate. }
+      split.
+      + unfold Cnf.neg_lit. rewrite Hm. cbn [Cnf.simplify]. apply litc_negate. now apply litc_simplify_atomic.
+      + rewrite Hm. exact Hat.
+  Qed.
+
+  Lemma leaves_atomic : forall t a, In a (leaves t) -> atomic a = true.
+  Proof.
+    induction t as [o args IH] using term_ind'. intros a Ha. cbn in Ha.
+    destruct (is_connective o) eqn:Ho.
+    - apply in_flat_map in Ha. destruct Ha as (x & Hx & Hax). rewrite Forall_forall in IH. eauto.
+    - destruct Ha as [<-|[]]. unfold atomic. cbn. now rewrite Ho.
+  Qed.
+
+  (* C11, shape: the result is a set of clauses of literals *)
+  Theorem convert_shape w f st cl st' : walk_ok w f -> shape_hyp ->
+    convert_with asimp w f st = Some (cl, st') -> Forall (Forall (fun l => litc l = true)) cl.
+  Proof.
+    intros Hw Hsh Hc. unfold convert_with in Hc.
+    destruct (w f st) as [[[|tl cl0] s1]|] eqn:E; try discriminate. injection Hc as <- <-.
+    destruct (Hw _ _ _ _ E) as [_ (_ & _ & _ & Li)].
+    assert (Hlits : litc tl = true /\ Forall (Forall (fun l => litc l = true)) cl0).
+    { apply (Li (fun l => litc l = true) (litc_closed Hsh)).
+      - intros n _. split; reflexivity.
+      - reflexivity.
+      - reflexivity.
+      - intros a Ha. apply atomic_litc. eapply leaves_atomic; eauto. }
+    destruct Hlits as [Htl Hcl].
+    - unfold cleanup. destruct cl0 as [|c0 cl1] eqn:Ecl; [repeat constructor; auto|].
+      rewrite <- Ecl in *. destruct (existsb is_nil cl0); [repeat constructor|].
+      apply Forall_forall. intros c' Hc'. apply in_flat_map in Hc'. destruct Hc' as (c & Hc & Hin).
+      unfold clean_clause in Hin. destruct (existsb (fun l => ctrue l || term_eqb l tl) c); [destruct Hin|].
+      destruct (filter (fun l => negb (term_eqb l (neg_lit tl)) && negb (cfalse l)) c) as [|x r] eqn:Ef; [destruct Hin|].
+      destruct Hin as [<-|[]]. rewrite <- Ef. apply Forall_forall. intros l Hl. apply filter_In in Hl.
+      destruct Hl as [Hl _]. rewrite Forall_forall in Hcl. pose proof (Hcl c Hc) as Hcc.
+      rewrite Forall_forall in Hcc. auto.
+  Qed.
+
+  (* ---------------------------------------------------------------- convert_as_formula *)
+  Lemma tv_mk_and J l : tv J (mk_and l) = forallb (tv J) l.
+  Proof. destruct l as [|x [|y r]]; cbn [mk_and]; [reflexivity| cbn; now rewrite andb_true_r | apply tv_and]. Qed.
+  Lemma tv_mk_or J l : tv J (mk_or l) = csat J l.
+  Proof. destruct l as [|x [|y r]]; cbn [mk_or]; [reflexivity| cbn; now rewrite orb_false_r | apply tv_or]. Qed.
+
+  Lemma clause_eqb_csat J a b : clause_eqb a b = true -> csat J a = csat J b.
+  Proof.
+    unfold clause_eqb, set_eqb. intros H. apply andb_true_iff in H. destruct H as [H1 H2].
+    apply (subset_spec term_eqb term_eqb_eq) in H1. apply (subset_spec term_eqb term_eqb_eq) in H2.
+    apply existsb_In_ext. intros x. split; auto.
+  Qed.
+  Lemma forallb_dedupe {A} (eqb : A -> A -> bool) (p : A -> bool) :
+    (forall a b, eqb a b = true -> p a = p b) -> forall l, forallb p (dedupe eqb l) = forallb p l.
+  Proof.
+    intros Hc l. unfold dedupe, union.
+    assert (G : forall acc, forallb p (fold_left (fun acc x => add eqb x acc) l acc) = forallb p acc && forallb p l).
+    { induction l as [|x l IH]; intros acc; cbn [fold_left forallb]; [now rewrite andb_true_r|].
+      rewrite IH. unfold add. destruct (mem eqb x acc) eqn:M.
+      - unfold mem in M. apply existsb_exists in M. destruct M as (y & Hy & Exy).
+        destruct (forallb p acc) eqn:F; [|reflexivity]. cbn.
+        rewrite forallb_forall in F. now rewrite (Hc _ _ Exy), (F y Hy).
+      - rewrite forallb_app. cbn. now rewrite andb_true_r, andb_assoc. }
+    apply G.
+  Qed.
+  Theorem as_formula_holds J cl : holds J (as_formula cl) <-> sat J cl = true.
+  Proof.
+    rewrite holds_tv. unfold as_formula. rewrite tv_mk_and, forallb_map.
+    assert (X : forall l : list (list term), forallb (fun x => tv J (mk_or x)) l = forallb (csat J) l).
+    { induction l as [|x l IH]; cbn; [reflexivity|]. now rewrite tv_mk_or, IH. }
+    rewrite X. unfold sat. now rewrite (forallb_dedupe clause_eqb (csat J) (clause_eqb_csat J)).
+  Qed.
+
+  (* ================================================================= PolarityCNFizer *)
+  (* the key of a formula is determined by the final table of introduced variables, whatever
+     the polarity (needed for Iff and Ite, which take the key from one walk and clauses from two) *)
+  Fixpoint keyfun (M : list (term * string)) (t : term) : term :=
+    match t with
+    | T o args =>
+        let kv := match assoc_term t M with Some n => TSym n TBool | None => t end in
+        match o, args with
+        | OAnd, [x] | OOr, [x] => keyfun M x
+        | ONot, [a] => let a' := keyfun M a in
+                       if ctrue a' then TFalse else if cfalse a' then TTrue else neg_lit a'
+        | OAnd, _ | OOr, _ | OImplies, _ | OIff, _ | OIte, _ => kv
+        | _, _ => t
+        end
+    end.
+
+  Definition GoodP (M : list (term * string)) (pol : bool) (t : term) (r : res) : Prop :=
+    match r with
+    | PH => True
+    | R key cl =>
+        (forall I, NoDup (map snd M) -> leaf_stable I M t ->
+                   sat (ext I M) cl = true /\ tv (ext I M) key = tv I t) /\
+        (forall J, sat J cl = true ->
+                   if pol then tv J key = true -> tv J t = true else tv J t = true -> tv J key = true) /\
+        (cl = [] \/ symlit (map snd M) key) /\
+        LitsOk M t key cl /\
+        key = keyfun M t
+    end.
+
+  Lemma mono_pos (J : interp) args (ps : list (term * list (list term))) :
+    Forall2 (fun x p => sat J (snd p) = true -> tv J (fst p) = true -> tv J x = true) args ps ->
+    forallb (fun p => sat J (snd p)) ps = true ->
+    (forallb (fun p => tv J (fst p)) ps = true -> forallb (tv J) args = true) /\
+    (existsb (fun p => tv J (fst p)) ps = true -> existsb (tv J) args = true).
+  Proof.
+    induction 1 as [|x p args ps H1 H IH]; cbn; auto.
+    intros Hs. apply andb_true_iff in Hs. destruct Hs as [Hp Hr]. destruct (IH Hr) as [A B]. split.
+    - intros Hf. apply andb_true_iff in Hf. destruct Hf as [F1 F2]. now rewrite (H1 Hp F1), (A F2).
+    - intros He. apply orb_true_iff in He. destruct He as [E1|E2].
+      + now rewrite (H1 Hp E1).
+      + rewrite (B E2). apply orb_true_r.
+  Qed.
+  Lemma mono_neg (J : interp) args (ps : list (term * list (list term))) :
+    Forall2 (fun x p => sat J (snd p) = true -> tv J x = true -> tv J (fst p) = true) args ps ->
+    forallb (fun p => sat J (snd p)) ps = true ->
+    (forallb (tv J) args = true -> forallb (fun p => tv J (fst p)) ps = true) /\
+    (existsb (tv J) args = true -> existsb (fun p => tv J (fst p)) ps = true).
+  Proof.
+    induction 1 as [|x p args ps H1 H IH]; cbn; auto.
+    intros Hs. apply andb_true_iff in Hs. destruct Hs as [Hp Hr]. destruct (IH Hr) as [A B]. split.
+    - intros Hf. apply andb_true_iff in Hf. destruct Hf as [F1 F2]. now rewrite (H1 Hp F1), (A F2).
+    - intros He. apply orb_true_iff in He. destruct He as [E1|E2].
+      + now rewrite (H1 Hp E1).
+      + rewrite (B E2). apply orb_true_r.
+  Qed.
+
+  Lemma childrenP_C M pol o I args (ps : list (term * list (list term))) :
+    is_connective o = true -> NoDup (map snd M) -> leaf_stable I M (T o args) ->
+    Forall2 (fun x p => GoodP M pol x (R (fst p) (snd p))) args ps ->
+    Forall2 (fun x p => sat (ext I M) (snd p) = true /\ tv (ext I M) (fst p) = tv I x) args ps.
+  Proof.
+    intros Ho Hnd Hls HF.
+    assert (G : forall x, In x args -> leaf_stable I M x) by (intros x Hx; eapply leaf_stable_arg; eauto).
+    clear Hls. induction HF as [|x p args ps Hxp HF IH]; constructor.
+    - destruct Hxp as (C & _). apply C; auto. apply G. now left.
+    - apply IH. intros y Hy. apply G. now right.
+  Qed.
+
+  Lemma childrenP_lits M pol o args (ps : list (term * list (list term))) (P : term -> Prop) :
+    is_connective o = true ->
+    Forall2 (fun x p => GoodP M pol x (R (fst p) (snd p))) args ps ->
+    lit_closed P ->
+    (forall n, In n (map snd M) -> P (TSym n TBool) /\ P (T ONot [TSym n TBool])) ->
+    P TTrue -> P TFalse -> (forall a, In a (leaves (T o args)) -> P a) ->
+    forall p, In p ps -> P (fst p) /\ Forall (Forall P) (snd p).
+  Proof.
+    intros Ho HF Hc Hs HT HFa Hl p Hp.
+    destruct (Forall2_In_r _ _ _ _ HF Hp) as (x & Hx & (_ & _ & _ & HL & _)).
+    apply HL; auto. intros a Ha. apply Hl. eapply leaves_arg; eauto.
+  Qed.
+
+  Lemma Forall_flat_snd (P : term -> Prop) (ps : list (term * list (list term))) :
+    (forall p, In p ps -> Forall (Forall P) (snd p)) -> Forall (Forall P) (flat_map snd ps).
+  Proof.
+    intros H. apply Forall_forall. intros c Hc. apply in_flat_map in Hc. destruct Hc as (p & Hp & Hcp).
+    pose proof (H p Hp) as Hall. rewrite Forall_forall in Hall. auto.
+  Qed.
+
+  Lemma keyfun_nary M o args n : (o = OAnd \/ o = OOr) -> (forall x, args <> [x]) ->
+    assoc_term (T o args) M = Some n -> keyfun M (T o args) = TSym n TBool.
+  Proof.
+    intros Ho Hne Ha. destruct args as [|x [|y r]].
+    - destruct Ho as [-> | ->]; cbn [keyfun]; now rewrite Ha.
+    - exfalso. now apply (Hne x).
+    - destruct Ho as [-> | ->]; cbn [keyfun]; now rewrite Ha.
+  Qed.
+
+  Lemma pol_and_good M pol args (ps : list (term * list (list term))) n :
+    In (T OAnd args, n) M -> assoc_term (T OAnd args) M = Some n -> (forall x, args <> [x]) ->
+    Forall2 (fun x p => GoodP M pol x (R (fst p) (snd p))) args ps ->
+    GoodP M pol (T OAnd args)
+          (R (TSym n TBool) (flat_map snd ps ++
+                             (if pol then map (fun p => mkclause [fst p; nk (TSym n TBool)]) ps
+                              else [mkclause (TSym n TBool :: map (fun p => neg_lit (fst p)) ps)]))).
+  Proof.
+    intros Hin Has Hne HF. unfold GoodP. split; [|split; [|split; [|split]]].
+    - intros I Hnd Hls. rewrite sat_app, sat_flat_snd.
+      destruct (children_C _ _ _ _ (childrenP_C M pol OAnd I args ps eq_refl Hnd Hls HF)) as (A & B & _).
+      rewrite A, (tv_ext_key I M _ n Hnd Hin), tv_and. split; auto. cbn [andb].
+      destruct pol; [rewrite sat_pol_and_pos | rewrite sat_pol_and_neg];
+        rewrite (tv_ext_key I M _ n Hnd Hin), tv_and, B; destruct (forallb (tv I) args); reflexivity.
+    - intros J Hs. rewrite sat_app, sat_flat_snd in Hs. apply andb_true_iff in Hs. destruct Hs as [Hc Hk].
+      rewrite tv_and. destruct pol.
+      + rewrite sat_pol_and_pos in Hk. intros Ht. rewrite Ht in Hk. cbn in Hk.
+        refine (proj1 (mono_pos J args ps _ Hc) Hk).
+        clear - HF. induction HF as [|x p args ps Hxp HF IH]; constructor; auto.
+        destruct Hxp as (_ & S & _). exact (S J).
+      + rewrite sat_pol_and_neg in Hk. intros Ht.
+        assert (X : forallb (fun p => tv J (fst p)) ps = true).
+        { refine (proj1 (mono_neg J args ps _ Hc) Ht).
+          clear - HF. induction HF as [|x p args ps Hxp HF IH]; constructor; auto.
+          destruct Hxp as (_ & S & _). exact (S J). }
+        rewrite X in Hk. exact Hk.
+    - right. exists n. split; [eapply In_names; eauto | auto].
+    - intros P Hc Hs HT HFa Hl. destruct (Hs n (In_names _ _ _ Hin)) as [Pk Pnk]. split; auto.
+      pose proof (childrenP_lits M pol OAnd args ps P eq_refl HF Hc Hs HT HFa Hl) as Hch.
+      apply Forall_cl_app; [apply Forall_flat_snd; intros p Hp; apply Hch, Hp|].
+      destruct pol.
+      + apply Forall_forall. intros c Hcl. apply in_map_iff in Hcl. destruct Hcl as (p & <- & Hp).
+        apply Forall_mkclause. repeat constructor; auto. apply Hch, Hp.
+      + repeat constructor. apply Forall_mkclause. constructor; auto. apply Forall_forall. intros l Hl'.
+        apply in_map_iff in Hl'. destruct Hl' as (p & <- & Hp). apply Hc, Hch, Hp.
+    - symmetry. apply keyfun_nary; auto.
+  Qed.
+
+  Lemma pol_or_good M pol args (ps : list (term * list (list term))) n :
+    In (T OOr args, n) M -> assoc_term (T OOr args) M = Some n -> (forall x, args <> [x]) ->
+    Forall2 (fun x p => GoodP M pol x (R (fst p) (snd p))) args ps ->
+    GoodP M pol (T OOr args)
+          (R (TSym n TBool) (flat_map snd ps ++
+                             (if pol then [mkclause (nk (TSym n TBool) :: map fst ps)]
+                              else map (fun p => mkclause [TSym n TBool; neg_lit (fst p)]) ps))).
+  Proof.
+    intros Hin Has Hne HF. unfold GoodP. split; [|split; [|split; [|split]]].
+    - intros I Hnd Hls. rewrite sat_app, sat_flat_snd.
+      destruct (children_C _ _ _ _ (childrenP_C M pol OOr I args ps eq_refl Hnd Hls HF)) as (A & _ & B).
+      rewrite A, (tv_ext_key I M _ n Hnd Hin), tv_or. split; auto. cbn [andb].
+      destruct pol; [rewrite sat_pol_or_pos | rewrite sat_pol_or_neg];
+        rewrite (tv_ext_key I M _ n Hnd Hin), tv_or, B; destruct (existsb (tv I) args); reflexivity.
+    - intros J Hs. rewrite sat_app, sat_flat_snd in Hs. apply andb_true_iff in Hs. destruct Hs as [Hc Hk].
+      rewrite tv_or. destruct pol.
+      + rewrite sat_pol_or_pos in Hk. intros Ht. rewrite Ht in Hk. cbn in Hk.
+        refine (proj2 (mono_pos J args ps _ Hc) Hk).
+        clear - HF. induction HF as [|x p args ps Hxp HF IH]; constructor; auto.
+        destruct Hxp as (_ & S & _). exact (S J).
+      + rewrite sat_pol_or_neg in Hk. intros Ht.
+        assert (X : existsb (fun p => tv J (fst p)) ps = true).
+        { refine (proj2 (mono_neg J args ps _ Hc) Ht).
+          clear - HF. induction HF as [|x p args ps Hxp HF IH]; constructor; auto.
+          destruct Hxp as (_ & S & _). exact (S J). }
+        rewrite X in Hk. exact Hk.
+    - right. exists n. split; [eapply In_names; eauto | auto].
+    - intros P Hc Hs HT HFa Hl. destruct (Hs n (In_names _ _ _ Hin)) as [Pk Pnk]. split; auto.
+      pose proof (childrenP_lits M pol OOr args ps P eq_refl HF Hc Hs HT HFa Hl) as Hch.
+      apply Forall_cl_app; [apply Forall_flat_snd; intros p Hp; apply Hch, Hp|].
+      destruct pol.
+      + repeat constructor. apply Forall_mkclause. constructor; auto. apply Forall_forall. intros l Hl'.
+        apply in_map_iff in Hl'. destruct Hl' as (p & <- & Hp). apply Hch, Hp.
+      + apply Forall_forall. intros c Hcl. apply in_map_iff in Hcl. destruct Hcl as (p & <- & Hp).
+        apply Forall_mkclause. repeat constructor; auto. apply Hc, Hch, Hp.
+    - symmetry. apply keyfun_nary; auto.
+  Qed.
+
+  Lemma sat_pol_implies_pos J k a b ca cb :
+    sat J (ca ++ cb ++ [mkclause [neg_lit a; b; nk k]]) = sat J ca && sat J cb && implb (tv J k) (implb (tv J a) (tv J b)).
+  Proof. norm_sat. fold (sat J ca) (sat J cb). destruct (sat J ca); destruct (sat J cb); destruct (tv J k); destruct (tv J a); destruct (tv J b); reflexivity. Qed.
+  Lemma sat_pol_implies_neg J k a b ca cb :
+    sat J (ca ++ cb ++ [mkclause [a; k]; mkclause [neg_lit b; k]]) = sat J ca && sat J cb && implb (implb (tv J a) (tv J b)) (tv J k).
+  Proof. norm_sat. fold (sat J ca) (sat J cb). destruct (sat J ca); destruct (sat J cb); destruct (tv J k); destruct (tv J a); destruct (tv J b); reflexivity. Qed.
+  Lemma sat_iff4 J k a b c1 c2 c3 c4 :
+    sat J (c1 ++ c2 ++ c3 ++ c4 ++ [mkclause [neg_lit a; neg_lit b; k]; mkclause [neg_lit a; b; nk k];
+                                    mkclause [a; neg_lit b; nk k]; mkclause [a; b; k]])
+    = sat J c1 && sat J c2 && sat J c3 && sat J c4 && Bool.eqb (tv J k) (Bool.eqb (tv J a) (tv J b)).
+  Proof.
+    norm_sat. fold (sat J c1) (sat J c2) (sat J c3) (sat J c4).
+    destruct (sat J c1); destruct (sat J c2); destruct (sat J c3); destruct (sat J c4); destruct (tv J k); destruct (tv J a); destruct (tv J b); reflexivity.
+  Qed.
+  Lemma sat_pol_ite_pos J k i a b c1 c2 c3 c4 :
+    sat J (c1 ++ c2 ++ c3 ++ c4 ++ [mkclause [neg_lit i; a; nk k]; mkclause [i; b; nk k]])
+    = sat J c1 && sat J c2 && sat J c3 && sat J c4 && implb (tv J k) (if tv J i then tv J a else tv J b).
+  Proof.
+    norm_sat. fold (sat J c1) (sat J c2) (sat J c3) (sat J c4).
+    destruct (sat J c1); destruct (sat J c2); destruct (sat J c3); destruct (sat J c4); destruct (tv J k); destruct (tv J i); destruct (tv J a); destruct (tv J b); reflexivity.
+  Qed.
+  Lemma sat_pol_ite_neg J k i a b c1 c2 c3 c4 :
+    sat J (c1 ++ c2 ++ c3 ++ c4 ++ [mkclause [neg_lit i; neg_lit a; k]; mkclause [i; neg_lit b; k]])
+    = sat J c1 && sat J c2 && sat J c3 && sat J c4 && implb (if tv J i then tv J a else tv J b) (tv J k).
+  Proof.
+    norm_sat. fold (sat J c1) (sat J c2) (sat J c3) (sat J c4).
+    destruct (sat J c1); destruct (sat J c2); destruct (sat J c3); destruct (sat J c4); destruct (tv J k); destruct (tv J i); destruct (tv J a); destruct (tv J b); reflexivity.
+  Qed.
+
+  Lemma pol_not_good M pol x a c :
+    GoodP M (negb pol) x (R a c) ->
+    GoodP M pol (T ONot [x]) (if ctrue a then R TFalse [] else if cfalse a then R TTrue [] else R (neg_lit a) c).
+  Proof.
+    intros (C & S & K & L & Kf).
+    assert (Hls : forall I, leaf_stable I M (T ONot [x]) -> leaf_stable I M x).
+    { intros I H. exact (leaf_stable_arg I M ONot [x] x eq_refl (or_introl eq_refl) H). }
+    assert (Hlv : forall a0, In a0 (leaves x) -> In a0 (leaves (T ONot [x]))).
+    { intros a0 H. exact (leaves_arg ONot [x] x a0 eq_refl (or_introl eq_refl) H). }
+    assert (HK : keyfun M (T ONot [x]) = if ctrue a then TFalse else if cfalse a then TTrue else neg_lit a).
+    { cbn [keyfun]. now rewrite <- Kf. }
+    destruct (ctrue a) eqn:Et; [|destruct (cfalse a) eqn:Ef].
+    - assert (c = []) as ->. { destruct K as [|K]; auto. apply symlit_not_const in K. destruct K. congruence. }
+      split; [|split; [|split; [|split]]]; auto.
+      + intros I Hnd Hl. split; auto. destruct (C I Hnd (Hls I Hl)) as [_ Ha].
+        rewrite tv_not, <- Ha, (ctrue_tv _ _ Et). reflexivity.
+      + intros J _. pose proof (S J eq_refl) as SJ. rewrite (ctrue_tv _ _ Et) in SJ. rewrite tv_not.
+        destruct pol; cbn in SJ |- *; [discriminate|]. intros H. rewrite (SJ eq_refl) in H. discriminate.
+      + intros P _ _ _ HF _. split; auto.
+    - assert (c = []) as ->. { destruct K as [|K]; auto. apply symlit_not_const in K. destruct K. congruence. }
+      split; [|split; [|split; [|split]]]; auto.
+      + intros I Hnd Hl. split; auto. destruct (C I Hnd (Hls I Hl)) as [_ Ha].
+        rewrite tv_not, <- Ha, (cfalse_tv _ _ Ef). reflexivity.
+      + intros J _. pose proof (S J eq_refl) as SJ. rewrite (cfalse_tv _ _ Ef) in SJ. rewrite tv_not.
+        destruct pol; cbn in SJ |- *; [|reflexivity]. intros _.
+        destruct (tv J x); [specialize (SJ eq_refl); discriminate | reflexivity].
+      + intros P _ _ HT _ _. split; auto.
+    - split; [|split; [|split; [|split]]]; auto.
+      + intros I Hnd Hl. destruct (C I Hnd (Hls I Hl)) as [Hc Ha]. split; auto.
+        now rewrite neg_lit_tv, tv_not, Ha.
+      + intros J Hs. pose proof (S J Hs) as SJ. rewrite neg_lit_tv, tv_not.
+        destruct pol; cbn in SJ |- *; destruct (tv J a); destruct (tv J x); auto.
+      + destruct K as [|K]; auto. right. now apply symlit_neg.
+      + intros P Hc Hs HT HF Hl. destruct (L P Hc Hs HT HF (fun a0 H => Hl a0 (Hlv a0 H))) as [Pa Pc].
+        split; auto. now apply Hc.
+  Qed.
+
+  Lemma pol_pass_good M pol o x r : (o = OAnd \/ o = OOr) -> (forall I, tv I (T o [x]) = tv I x) ->
+    GoodP M pol x r -> GoodP M pol (T o [x]) r.
+  Proof.
+    intros Ho Htv H. destruct r as [|key cl]; auto. destruct H as (C & S & K & L & Kf).
+    assert (Hc : is_connective o = true) by (destruct Ho as [-> | ->]; reflexivity).
+    split; [|split; [|split; [|split]]]; auto.
+    - intros I Hnd Hl. rewrite Htv. apply C; auto. eapply leaf_stable_arg; eauto. now left.
+    - intros J Hs. rewrite Htv. exact (S J Hs).
+    - intros P Hcl Hs HT HF Hl. apply L; auto. intros a Ha. apply Hl. eapply leaves_arg; eauto. now left.
+    - rewrite Kf. destruct Ho as [-> | ->]; reflexivity.
+  Qed.
+
+  Lemma pol_leaf_good M pol o args : is_connective o = false -> GoodP M pol (T o args) (R (T o args) []).
+  Proof.
+    intros Ho. split; [|split; [|split; [|split]]]; auto.
+    - intros I _ Hl. split; auto. apply Hl. cbn. rewrite Ho. now left.
+    - intros J _. destruct pol; auto.
+    - intros P _ _ _ _ Hl. split; auto. apply Hl. cbn. rewrite Ho. now left.
+    - destruct o; try discriminate; reflexivity.
+  Qed.
+
+  Lemma both_polarities M x a c1 c2 J :
+    GoodP M true x (R a c1) -> GoodP M false x (R a c2) -> sat J c1 = true -> sat J c2 = true -> tv J a = tv J x.
+  Proof.
+    intros (_ & S1 & _) (_ & S2 & _) H1 H2. pose proof (S1 J H1) as A. pose proof (S2 J H2) as B. cbn in A, B.
+    destruct (tv J a); destruct (tv J x); auto. symmetry. auto.
+  Qed.
+  Lemma GoodP_key M pol x a c : GoodP M pol x (R a c) -> a = keyfun M x.
+  Proof. intros (_ & _ & _ & _ & Kf). exact Kf. Qed.
+
+  Ltac leaves_sub Hl := intros a0 H0; apply Hl; eapply leaves_arg; eauto; cbn; tauto.
+
+  Lemma pol_implies_good M pol x y a b ca cb n :
+    In (T OImplies [x; y], n) M -> assoc_term (T OImplies [x; y]) M = Some n ->
+    GoodP M (negb pol) x (R a ca) -> GoodP M pol y (R b cb) ->
+    GoodP M pol (T OImplies [x; y])
+          (R (TSym n TBool) (ca ++ cb ++ (if pol then [mkclause [neg_lit a; b; nk (TSym n TBool)]]
+                                          else [mkclause [a; TSym n TBool]; mkclause [neg_lit b; TSym n TBool]]))).
+  Proof.
+    intros Hin Has (Ca & Sa & _ & La & _) (Cb & Sb & _ & Lb & _). split; [|split; [|split; [|split]]].
+    - intros I Hnd Hl.
+      destruct (Ca I Hnd) as [Hca Ha]; [child_stable Hl|]. destruct (Cb I Hnd) as [Hcb Hb]; [child_stable Hl|].
+      split; [|apply (tv_ext_key I M _ n Hnd Hin)].
+      destruct pol; [rewrite sat_pol_implies_pos | rewrite sat_pol_implies_neg];
+        rewrite Hca, Hcb, (tv_ext_key I M _ n Hnd Hin), tv_implies, Ha, Hb;
+        destruct (tv I x); destruct (tv I y); reflexivity.
+    - intros J Hs. rewrite tv_implies. destruct pol.
+      + rewrite sat_pol_implies_pos in Hs. apply andb_true_iff in Hs. destruct Hs as [Hs He].
+        apply andb_true_iff in Hs. destruct Hs as [Ha Hb].
+        pose proof (Sa J Ha) as A. pose proof (Sb J Hb) as B. cbn in A, B. intros Hk. rewrite Hk in He.
+        destruct (tv J x); destruct (tv J y); auto. rewrite (A eq_refl) in He. cbn in He. auto.
+      + rewrite sat_pol_implies_neg in Hs. apply andb_true_iff in Hs. destruct Hs as [Hs He].
+        apply andb_true_iff in Hs. destruct Hs as [Ha Hb].
+        pose proof (Sa J Ha) as A. pose proof (Sb J Hb) as B. cbn in A, B. intros Ht.
+        destruct (tv J (TSym n TBool)); auto.
+        destruct (tv J a) eqn:Ea; [|discriminate]. rewrite (A eq_refl) in Ht. cbn in Ht.
+        rewrite (B Ht) in He. discriminate.
+    - right. exists n. split; [eapply In_names; eauto|auto].
+    - intros P Hc Hs HT HF Hl. destruct (Hs n (In_names _ _ _ Hin)) as [Pk Pnk].
+      destruct (La P Hc Hs HT HF) as [Pa Pca]; [leaves_sub Hl|].
+      destruct (Lb P Hc Hs HT HF) as [Pb Pcb]; [leaves_sub Hl|].
+      pose proof (Hc a Pa) as [Pna _]. pose proof (Hc b Pb) as [Pnb _].
+      split; auto. destruct pol; lits_tac.
+    - cbn [keyfun]. now rewrite Has.
+  Qed.
+
+  Lemma pol_iff_good M pol x y a b cap cbp can cbn n :
+    In (T OIff [x; y], n) M -> assoc_term (T OIff [x; y]) M = Some n ->
+    GoodP M pol x (R a cap) -> GoodP M pol y (R b cbp) ->
+    GoodP M (negb pol) x (R a can) -> GoodP M (negb pol) y (R b cbn) ->
+    GoodP M pol (T OIff [x; y])
+          (R (TSym n TBool) (cap ++ can ++ cbp ++ cbn ++
+                             [mkclause [neg_lit a; neg_lit b; TSym n TBool]; mkclause [neg_lit a; b; nk (TSym n TBool)];
+                              mkclause [a; neg_lit b; nk (TSym n TBool)]; mkclause [a; b; TSym n TBool]])).
+  Proof.
+    intros Hin Has Gap Gbp Gan Gbn.
+    pose proof Gap as (Cap & _ & _ & Lap & _). pose proof Gbp as (Cbp & _ & _ & Lbp & _).
+    pose proof Gan as (Can & _ & _ & Lan & _). pose proof Gbn as (Cbn & _ & _ & Lbn & _).
+    split; [|split; [|split; [|split]]].
+    - intros I Hnd Hl.
+      destruct (Cap I Hnd) as [H1 Ha]; [child_stable Hl|]. destruct (Cbp I Hnd) as [H2 Hb]; [child_stable Hl|].
+      destruct (Can I Hnd) as [H3 _]; [child_stable Hl|]. destruct (Cbn I Hnd) as [H4 _]; [child_stable Hl|].
+      rewrite sat_iff4, H1, H2, H3, H4, (tv_ext_key I M _ n Hnd Hin), tv_iff, Ha, Hb, eqb_reflx. auto.
+    - intros J Hs. rewrite sat_iff4 in Hs.
+      apply andb_true_iff in Hs. destruct Hs as [Hs He]. apply andb_true_iff in Hs. destruct Hs as [Hs H4].
+      apply andb_true_iff in Hs. destruct Hs as [Hs H3]. apply andb_true_iff in Hs. destruct Hs as [H1 H2].
+      apply eqb_prop in He. rewrite tv_iff.
+      assert (Ea : tv J a = tv J x).
+      { destruct pol; [apply (both_polarities M x a cap can J) | apply (both_polarities M x a can cap J)]; auto. }
+      assert (Eb : tv J b = tv J y).
+      { destruct pol; [apply (both_polarities M y b cbp cbn J) | apply (both_polarities M y b cbn cbp J)]; auto. }
+      rewrite <- Ea, <- Eb, He. destruct pol; auto.
+    - right. exists n. split; [eapply In_names; eauto|auto].
+    - intros P Hc Hs HT HF Hl. destruct (Hs n (In_names _ _ _ Hin)) as [Pk Pnk].
+      destruct (Lap P Hc Hs HT HF) as [Pa Pc1]; [leaves_sub Hl|].
+      destruct (Lbp P Hc Hs HT HF) as [Pb Pc2]; [leaves_sub Hl|].
+      destruct (Lan P Hc Hs HT HF) as [_ Pc3]; [leaves_sub Hl|].
+      destruct (Lbn P Hc Hs HT HF) as [_ Pc4]; [leaves_sub Hl|].
+      pose proof (Hc a Pa) as [Pna _]. pose proof (Hc b Pb) as [Pnb _].
+      split; auto. lits_tac.
+    - cbn [keyfun]. now rewrite Has.
+  Qed.
+
+  Lemma pol_ite_good M pol x y z i a b cip cin ct ce n :
+    In (T OIte [x; y; z], n) M -> assoc_term (T OIte [x; y; z]) M = Some n ->
+    GoodP M pol x (R i cip) -> GoodP M (negb pol) x (R i cin) -> GoodP M pol y (R a ct) -> GoodP M pol z (R b ce) ->
+    GoodP M pol (T OIte [x; y; z])
+          (R (TSym n TBool) (cip ++ cin ++ ct ++ ce ++
+                             (if pol then [mkclause [neg_lit i; a; nk (TSym n TBool)]; mkclause [i; b; nk (TSym n TBool)]]
+                              else [mkclause [neg_lit i; neg_lit a; TSym n TBool]; mkclause [i; neg_lit b; TSym n TBool]]))).
+  Proof.
+    intros Hin Has Gip Gin Ga Gb.
+    pose proof Gip as (Cip & _ & _ & Lip & _). pose proof Gin as (Cin & _ & _ & Lin & _).
+    pose proof Ga as (Ca & Sa & _ & La & _). pose proof Gb as (Cb & Sb & _ & Lb & _).
+    split; [|split; [|split; [|split]]].
+    - intros I Hnd Hl.
+      destruct (Cip I Hnd) as [H1 Hi]; [child_stable Hl|]. destruct (Cin I Hnd) as [H2 _]; [child_stable Hl|].
+      destruct (Ca I Hnd) as [H3 Ha]; [child_stable Hl|]. destruct (Cb I Hnd) as [H4 Hb]; [child_stable Hl|].
+      split; [|apply (tv_ext_key I M _ n Hnd Hin)].
+      destruct pol; [rewrite sat_pol_ite_pos | rewrite sat_pol_ite_neg];
+        rewrite H1, H2, H3, H4, (tv_ext_key I M _ n Hnd Hin), tv_ite, Hi, Ha, Hb;
+        destruct (tv I x); destruct (tv I y); destruct (tv I z); reflexivity.
+    - intros J Hs. rewrite tv_ite.
+      assert (Ei : sat J cip = true -> sat J cin = true -> tv J i = tv J x).
+      { intros A B. destruct pol; [apply (both_polarities M x i cip cin J) | apply (both_polarities M x i cin cip J)]; auto. }
+      destruct pol.
+      + rewrite sat_pol_ite_pos in Hs.
+        apply andb_true_iff in Hs. destruct Hs as [Hs He]. apply andb_true_iff in Hs. destruct Hs as [Hs H4].
+        apply andb_true_iff in Hs. destruct Hs as [Hs H3]. apply andb_true_iff in Hs. destruct Hs as [H1 H2].
+        pose proof (Sa J H3) as A. pose proof (Sb J H4) as B. cbn in A, B. intros Hk. rewrite Hk, (Ei H1 H2) in He. cbn in He.
+        destruct (tv J x); auto.
+      + rewrite sat_pol_ite_neg in Hs.
+        apply andb_true_iff in Hs. destruct Hs as [Hs He]. apply andb_true_iff in Hs. destruct Hs as [Hs H4].
+        apply andb_true_iff in Hs. destruct Hs as [Hs H3]. apply andb_true_iff in Hs. destruct Hs as [H1 H2].
+        pose proof (Sa J H3) as A. pose proof (Sb J H4) as B. cbn in A, B. intros Ht. rewrite (Ei H1 H2) in He.
+        destruct (tv J x); [rewrite (A Ht) in He | rewrite (B Ht) in He]; exact He.
+    - right. exists n. split; [eapply In_names; eauto|auto].
+    - intros P Hc Hs HT HF Hl. destruct (Hs n (In_names _ _ _ Hin)) as [Pk Pnk].
+      destruct (Lip P Hc Hs HT HF) as [Pi Pc1]; [leaves_sub Hl|].
+      destruct (Lin P Hc Hs HT HF) as [_ Pc2]; [leaves_sub Hl|].
+      destruct (La P Hc Hs HT HF) as [Pa Pc3]; [leaves_sub Hl|].
+      destruct (Lb P Hc Hs HT HF) as [Pb Pc4]; [leaves_sub Hl|].
+      pose proof (Hc i Pi) as [Pni _]. pose proof (Hc a Pa) as [Pna _]. pose proof (Hc b Pb) as [Pnb _].
+      split; auto. destruct pol; lits_tac.
+    - cbn [keyfun]. now rewrite Has.
+  Qed.
+
+  (* ---------------------------------------------------------------- the polarity walk *)
+  Definition WG (t : term) : Prop := forall pol st r st', pol_walk asimp t pol st = Some (r, st') ->
+    st_le st st' /\ forall M, extends (intro st') M -> GoodP M pol t r.
+
+  Lemma key_var_inP f st k st' : key_var f st = (k, st') ->
+    st_le st st' /\ forall M, extends (intro st') M -> exists n, k = TSym n TBool /\ In (f, n) M /\ assoc_term f M = Some n.
+  Proof.
+    intros H. split; [apply (key_var_spec _ _ _ _ H)|]. intros M HM.
+    destruct (key_var_in _ _ _ _ M H HM) as (_ & n & A & B & C). eauto.
+  Qed.
+
+  Lemma pol_node_nary o args pol rs st r st' : (o = OAnd \/ o = OOr) ->
+    pol_node asimp (T o args) pol rs st = Some (r, st') ->
+    st_le st st' /\ forall M, extends (intro st') M -> Forall2 (GoodP M pol) args rs -> GoodP M pol (T o args) r.
+  Proof.
+    intros Ho H.
+    assert (NE : (forall x, rs <> [x]) -> forall M, Forall2 (GoodP M pol) args rs -> forall x, args <> [x]).
+    { intros Hrs M HF x ->. inversion HF as [|? y ? rs' _ HF']; subst. inversion HF'; subst. now apply (Hrs y). }
+    destruct Ho as [-> | ->]; unfold pol_node in H.
+    - destruct rs as [|r0 [|r1 rs']] eqn:Ers.
+      + cbn [unpack] in H. destruct (key_var (T OAnd args) st) as [k s1] eqn:K. injection H as <- <-.
+        destruct (key_var_inP _ _ _ _ K) as [Hle HM]. split; auto. intros M HMe HF.
+        destruct (HM M HMe) as (n & -> & Hin & Has). inversion HF; subst.
+        apply (pol_and_good M pol [] [] n); auto; try (intros x0 E0; discriminate E0); try constructor.
+      + injection H as <- <-. split; [apply st_le_refl|]. intros M _ HF.
+        inversion HF as [|x ? args' ? Hx HF']; subst. inversion HF'; subst.
+        apply pol_pass_good; auto. intros I. rewrite tv_and. cbn. apply andb_true_r.
+      + destruct (unpack (r0 :: r1 :: rs')) as [ps|] eqn:U; [|discriminate].
+        destruct (key_var (T OAnd args) st) as [k s1] eqn:K. injection H as <- <-.
+        destruct (key_var_inP _ _ _ _ K) as [Hle HM]. split; auto. intros M HMe HF.
+        destruct (HM M HMe) as (n & -> & Hin & Has).
+        apply pol_and_good; auto; [eapply NE; eauto; intros x0 E0; discriminate E0 | eapply unpack_Forall2; eauto].
+    - destruct rs as [|r0 [|r1 rs']] eqn:Ers.
+      + cbn [unpack] in H. destruct (key_var (T OOr args) st) as [k s1] eqn:K. injection H as <- <-.
+        destruct (key_var_inP _ _ _ _ K) as [Hle HM]. split; auto. intros M HMe HF.
+        destruct (HM M HMe) as (n & -> & Hin & Has). inversion HF; subst.
+        apply (pol_or_good M pol [] [] n); auto; try (intros x0 E0; discriminate E0); try constructor.
+      + injection H as <- <-. split; [apply st_le_refl|]. intros M _ HF.
+        inversion HF as [|x ? args' ? Hx HF']; subst. inversion HF'; subst.
+        apply pol_pass_good; auto. intros I. rewrite tv_or. cbn. apply orb_false_r.
+      + destruct (unpack (r0 :: r1 :: rs')) as [ps|] eqn:U; [|discriminate].
+        destruct (key_var (T OOr args) st) as [k s1] eqn:K. injection H as <- <-.
+        destruct (key_var_inP _ _ _ _ K) as [Hle HM]. split; auto. intros M HMe HF.
+        destruct (HM M HMe) as (n & -> & Hin & Has).
+        apply pol_or_good; auto; [eapply NE; eauto; intros x0 E0; discriminate E0 | eapply unpack_Forall2; eauto].
+  Qed.
+
+  Lemma GoodP_ext_mono : True. Proof. exact Logic.I. Qed.
+
+  Lemma pol_walk_leaf o args pol st r st' :
+    is_connective o = false -> pol_node asimp (T o args) pol [] st = Some (r, st') ->
+    st_le st st' /\ forall M, extends (intro st') M -> GoodP M pol (T o args) r.
+  Proof.
+    intros Ho H.
+    assert (LF : forall M (r0 : res), r0 = PH \/ r0 = R (T o args) [] -> GoodP M pol (T o args) r0).
+    { intros M r0 [-> | ->]; [exact Logic.I | now apply pol_leaf_good]. }
+    unfold pol_node in H. destruct o; try discriminate.
+    all: try (injection H as <- <-; (split; [apply st_le_refl|]); intros M _; apply LF;
+              unfold bool_symbol, walk_constant; try destruct (ty_eqb _ _); solve [auto]).
+    all: try (cbv [is_theory_relation is_str_operator] in H; try discriminate;
+              injection H as <- <-; (split; [apply st_le_refl|]); intros M _; apply LF; solve [auto]).
+    - unfold walk_function in H. destruct t; try discriminate. cbn beta iota in H. injection H as <- <-.
+      split; [apply st_le_refl|]. intros M _. apply LF. destruct (ty_eqb t TBool); auto.
+    - destruct k; cbv [is_theory_relation is_str_operator] in H; try discriminate;
+        injection H as <- <-; (split; [apply st_le_refl|]); intros M _; apply LF; solve [auto].
+  Qed.
+
+  Theorem pol_walk_good : forall t, WG t.
+  Proof.
+    induction t as [o args IH] using term_ind'. intros pol st r st' H.
+    destruct (is_connective o) eqn:Hco.
+    - destruct o; try discriminate.
+      + (* and *)
+        change (match walk_list (fun x s => pol_walk asimp x pol s) args st with
+                | Some (rs, s1) => pol_node asimp (T OAnd args) pol rs s1 | None => None end = Some (r, st')) in H.
+        destruct (walk_list (fun x s => pol_walk asimp x pol s) args st) as [[rs s1]|] eqn:E; [|discriminate].
+        assert (IH' : Forall (fun x => forall st r st', pol_walk asimp x pol st = Some (r, st') ->
+                                       st_le st st' /\ forall M, extends (intro st') M -> GoodP M pol x r) args).
+        { rewrite Forall_forall in IH |- *. intros x Hx s0 r0 s0'. apply (IH x Hx pol). }
+        destruct (walk_list_good _ (fun M => GoodP M pol) args IH' _ _ _ E) as [L1 F1].
+        destruct (pol_node_nary OAnd args pol rs s1 r st' (or_introl eq_refl) H) as [L2 F2].
+        split; [eapply st_le_trans; eauto|]. intros M HM. apply F2; auto. apply F1. eapply st_le_extends; eauto.
+      + (* or *)
+        change (match walk_list (fun x s => pol_walk asimp x pol s) args st with
+                | Some (rs, s1) => pol_node asimp (T OOr args) pol rs s1 | None => None end = Some (r, st')) in H.
+        destruct (walk_list (fun x s => pol_walk asimp x pol s) args st) as [[rs s1]|] eqn:E; [|discriminate].
+        assert (IH' : Forall (fun x => forall st r st', pol_walk asimp x pol st = Some (r, st') ->
+                                       st_le st st' /\ forall M, extends (intro st') M -> GoodP M pol x r) args).
+        { rewrite Forall_forall in IH |- *. intros x Hx s0 r0 s0'. apply (IH x Hx pol). }
+        destruct (walk_list_good _ (fun M => GoodP M pol) args IH' _ _ _ E) as [L1 F1].
+        destruct (pol_node_nary OOr args pol rs s1 r st' (or_intror eq_refl) H) as [L2 F2].
+        split; [eapply st_le_trans; eauto|]. intros M HM. apply F2; auto. apply F1. eapply st_le_extends; eauto.
+      + (* not *)
+        destruct args as [|x [|y rest]]; try discriminate. inversion IH as [|? ? IHx _]; subst.
+        change (match pol_walk asimp x (negb pol) st with
+                | Some (ra, s1) => pol_node asimp (T ONot [x]) pol [ra] s1 | None => None end = Some (r, st')) in H.
+        destruct (pol_walk asimp x (negb pol) st) as [[ra s1]|] eqn:E; [|discriminate].
+        destruct (IHx _ _ _ _ E) as [L1 F1].
+        unfold pol_node, walk_not in H. destruct ra as [|a c]; [discriminate|]. cbn beta iota in H. injection H as <- <-.
+        split; auto. intros M HM. apply pol_not_good. now apply F1.
+      + (* implies *)
+        destruct args as [|x [|y [|z rest]]]; try discriminate.
+        inversion IH as [|? ? IHx IH1]; subst. inversion IH1 as [|? ? IHy _]; subst.
+        change (match pol_walk asimp y pol st with
+                | Some (rb, s1) => match pol_walk asimp x (negb pol) s1 with
+                                   | Some (ra, s2) => pol_node asimp (T OImplies [x; y]) pol [ra; rb] s2
+                                   | None => None end
+                | None => None end = Some (r, st')) in H.
+        destruct (pol_walk asimp y pol st) as [[rb s1]|] eqn:E1; [|discriminate].
+        destruct (pol_walk asimp x (negb pol) s1) as [[ra s2]|] eqn:E2; [|discriminate].
+        destruct (IHy _ _ _ _ E1) as [L1 F1]. destruct (IHx _ _ _ _ E2) as [L2 F2].
+        unfold pol_node in H. destruct ra as [|a ca]; [discriminate|]. destruct rb as [|b cb]; [discriminate|].
+        destruct (key_var (T OImplies [x; y]) s2) as [k s3] eqn:K. injection H as <- <-.
+        destruct (key_var_inP _ _ _ _ K) as [L3 HM3].
+        split; [eapply st_le_trans; [eauto|eapply st_le_trans; eauto]|]. intros M HM.
+        destruct (HM3 M HM) as (n & -> & Hin & Has).
+        pose proof (st_le_extends _ _ _ L3 HM) as HM2. pose proof (st_le_extends _ _ _ L2 HM2) as HM1.
+        apply pol_implies_good; auto.
+      + (* iff *)
+        destruct args as [|x [|y [|z rest]]]; try discriminate.
+        inversion IH as [|? ? IHx IH1]; subst. inversion IH1 as [|? ? IHy _]; subst.
+        change (match pol_walk asimp y (negb pol) st with
+                | Some (rbn, s1) =>
+                    match pol_walk asimp x (negb pol) s1 with
+                    | Some (ran, s2) =>
+                        match pol_walk asimp y pol s2 with
+                        | Some (rbp, s3) =>
+                            match pol_walk asimp x pol s3 with
+                            | Some (rap, s4) => pol_node asimp (T OIff [x; y]) pol [rap; rbp; ran; rbn] s4
+                            | None => None end
+                        | None => None end
+                    | None => None end
+                | None => None end = Some (r, st')) in H.
+        destruct (pol_walk asimp y (negb pol) st) as [[rbn s1]|] eqn:E1; [|discriminate].
+        destruct (pol_walk asimp x (negb pol) s1) as [[ran s2]|] eqn:E2; [|discriminate].
+        destruct (pol_walk asimp y pol s2) as [[rbp s3]|] eqn:E3; [|discriminate].
+        destruct (pol_walk asimp x pol s3) as [[rap s4]|] eqn:E4; [|discriminate].
+        destruct (IHy _ _ _ _ E1) as [L1 F1]. destruct (IHx _ _ _ _ E2) as [L2 F2].
+        destruct (IHy _ _ _ _ E3) as [L3 F3]. destruct (IHx _ _ _ _ E4) as [L4 F4].
+        unfold pol_node in H. destruct rap as [|a cap]; [discriminate|]. destruct rbp as [|b cbp]; [discriminate|].
+        destruct ran as [|a' can]; [discriminate|]. destruct rbn as [|b' cbn]; [discriminate|].
+        destruct (key_var (T OIff [x; y]) s4) as [k s5] eqn:K. injection H as <- <-.
+        destruct (key_var_inP _ _ _ _ K) as [L5 HM5].
+        split; [eapply st_le_trans; [eauto|eapply st_le_trans; [eauto|eapply st_le_trans; [eauto|eapply st_le_trans; eauto]]]|].
+        intros M HM. destruct (HM5 M HM) as (n & -> & Hin & Has).
+        pose proof (st_le_extends _ _ _ L5 HM) as HM4. pose proof (st_le_extends _ _ _ L4 HM4) as HM3.
+        pose proof (st_le_extends _ _ _ L3 HM3) as HM2. pose proof (st_le_extends _ _ _ L2 HM2) as HM1.
+        pose proof (F4 M HM4) as G4. pose proof (F3 M HM3) as G3. pose proof (F2 M HM2) as G2. pose proof (F1 M HM1) as G1.
+        assert (a' = a) by (rewrite (GoodP_key _ _ _ _ _ G2), (GoodP_key _ _ _ _ _ G4); reflexivity).
+        assert (b' = b) by (rewrite (GoodP_key _ _ _ _ _ G1), (GoodP_key _ _ _ _ _ G3); reflexivity).
+        subst a' b'. apply pol_iff_good; auto.
+      + (* ite *)
+        destruct args as [|x [|y [|z [|u rest]]]]; try discriminate.
+        inversion IH as [|? ? IHx IH1]; subst. inversion IH1 as [|? ? IHy IH2]; subst. inversion IH2 as [|? ? IHz _]; subst.
+        change (match pol_walk asimp z pol st with
+                | Some (re, s1) =>
+                    match pol_walk asimp y pol s1 with
+                    | Some (rt, s2) =>
+                        match pol_walk asimp x (negb pol) s2 with
+                        | Some (rin, s3) =>
+                            match pol_walk asimp x pol s3 with
+                            | Some (rip, s4) => pol_node asimp (T OIte [x; y; z]) pol [rip; rin; rt; re] s4
+                            | None => None end
+                        | None => None end
+                    | None => None end
+                | None => None end = Some (r, st')) in H.
+        destruct (pol_walk asimp z pol st) as [[re s1]|] eqn:E1; [|discriminate].
+        destruct (pol_walk asimp y pol s1) as [[rt s2]|] eqn:E2; [|discriminate].
+        destruct (pol_walk asimp x (negb pol) s2) as [[rin s3]|] eqn:E3; [|discriminate].
+        destruct (pol_walk asimp x pol s3) as [[rip s4]|] eqn:E4; [|discriminate].
+        destruct (IHz _ _ _ _ E1) as [L1 F1]. destruct (IHy _ _ _ _ E2) as [L2 F2].
+        destruct (IHx _ _ _ _ E3) as [L3 F3]. destruct (IHx _ _ _ _ E4) as [L4 F4].
+        assert (L14 : st_le st s4).
+        { eapply st_le_trans; [eauto|eapply st_le_trans; [eauto|eapply st_le_trans; eauto]]. }
+        unfold pol_node in H. destruct (existsb is_ph [rip; rin; rt; re]) eqn:Eph.
+        * injection H as <- <-. split; auto. intros M _. exact Logic.I.
+        * destruct rip as [|i cip]; [discriminate|]. destruct rin as [|i' cin]; [discriminate|].
+          destruct rt as [|a ct]; [discriminate|]. destruct re as [|b ce]; [discriminate|].
+          destruct (key_var (T OIte [x; y; z]) s4) as [k s5] eqn:K. injection H as <- <-.
+          destruct (key_var_inP _ _ _ _ K) as [L5 HM5].
+          split; [eapply st_le_trans; eauto|].
+          intros M HM. destruct (HM5 M HM) as (n & -> & Hin & Has).
+          pose proof (st_le_extends _ _ _ L5 HM) as HM4. pose proof (st_le_extends _ _ _ L4 HM4) as HM3.
+          pose proof (st_le_extends _ _ _ L3 HM3) as HM2. pose proof (st_le_extends _ _ _ L2 HM2) as HM1.
+          pose proof (F4 M HM4) as G4. pose proof (F3 M HM3) as G3. pose proof (F2 M HM2) as G2. pose proof (F1 M HM1) as G1.
+          assert (i' = i) by (rewrite (GoodP_key _ _ _ _ _ G3), (GoodP_key _ _ _ _ _ G4); reflexivity).
+          subst i'. apply pol_ite_good; auto.
+    - (* atoms *)
+      assert (H' : pol_node asimp (T o args) pol [] st = Some (r, st')).
+      { destruct o; try discriminate; exact H. }
+      now apply pol_walk_leaf.
+  Qed.
+
+  Lemma pol_walk_ok f : walk_ok (fun f st => pol_walk asimp f true st) f.
+  Proof.
+    intros st key cl st' H. destruct (pol_walk_good f true _ _ _ H) as [L G]. split; auto.
+    destruct (G _ (extends_refl _)) as (C & S & K & Li & _). split; [|split; [|split]]; auto.
   Qed.
 End Proofs.
+
+(* ================================================================= the C11 theorems (CNF part) *)
+Definition simp_sound (asimp : term -> term) : Prop := forall I t, tv I (asimp t) = tv I t.
+Definition clauses_of_literals (cl : list (list term)) : Prop := Forall (Forall (fun l => litc l = true)) cl.
+(* the names of the symbols introduced by a conversion *)
+Definition introduced (st' : cstate) : list string := map snd (intro st').
+
+Section Final.
+  Variable asimp : term -> term.
+  Hypothesis Hs : simp_sound asimp.
+
+  Theorem cnf_shape f st cl st' : shape_hyp asimp ->
+    cnf_convert asimp f st = Some (cl, st') -> clauses_of_literals cl.
+  Proof. intros Hsh H. exact (convert_shape asimp _ f st cl st' (cnf_walk_ok asimp Hs f) Hsh H). Qed.
+
+  Theorem cnf_complete f st cl st' I : start_ok f st ->
+    cnf_convert asimp f st = Some (cl, st') -> holds I f ->
+    exists I', agrees_off (introduced st') I I' /\ sat I' cl = true /\ holds I' (as_formula cl) /\
+               (forall n, In n (introduced st') -> ~ In n (mnames (mgr st))).
+  Proof.
+    intros Hst H Hf. destruct (convert_complete asimp Hs _ f st cl st' I (cnf_walk_ok asimp Hs f) Hst H Hf) as (I' & A & B & C).
+    exists I'. repeat split; auto; try apply A. now apply as_formula_holds.
+  Qed.
+
+  Theorem cnf_sound_partial f st cl st' J : start_ok f st ->
+    cnf_convert asimp f st = Some (cl, st') -> cnf_emptied asimp f st = false ->
+    sat J cl = true -> holds J f.
+  Proof. intros Hst H He HJ. exact (convert_sound_partial asimp Hs _ f st cl st' J (cnf_walk_ok asimp Hs f) Hst H He HJ). Qed.
+
+  Theorem cnf_emptied_unsat f st I : start_ok f st -> cnf_emptied asimp f st = true -> ~ holds I f.
+  Proof. intros Hst He. exact (convert_emptied_unsat asimp Hs _ f st I (cnf_walk_ok asimp Hs f) Hst He). Qed.
+
+  Theorem pol_shape f st cl st' : shape_hyp asimp ->
+    pol_convert asimp f st = Some (cl, st') -> clauses_of_literals cl.
+  Proof. intros Hsh H. exact (convert_shape asimp _ f st cl st' (pol_walk_ok asimp Hs f) Hsh H). Qed.
+
+  Theorem pol_complete f st cl st' I : start_ok f st ->
+    pol_convert asimp f st = Some (cl, st') -> holds I f ->
+    exists I', agrees_off (introduced st') I I' /\ sat I' cl = true /\ holds I' (as_formula cl) /\
+               (forall n, In n (introduced st') -> ~ In n (mnames (mgr st))).
+  Proof.
+    intros Hst H Hf. destruct (convert_complete asimp Hs _ f st cl st' I (pol_walk_ok asimp Hs f) Hst H Hf) as (I' & A & B & C).
+    exists I'. repeat split; auto; try apply A. now apply as_formula_holds.
+  Qed.
+
+  Theorem pol_sound_partial f st cl st' J : start_ok f st ->
+    pol_convert asimp f st = Some (cl, st') -> pol_emptied asimp f st = false ->
+    sat J cl = true -> holds J f.
+  Proof. intros Hst H He HJ. exact (convert_sound_partial asimp Hs _ f st cl st' J (pol_walk_ok asimp Hs f) Hst H He HJ). Qed.
+
+  Theorem pol_emptied_unsat f st I : start_ok f st -> pol_emptied asimp f st = true -> ~ holds I f.
+  Proof. intros Hst He. exact (convert_emptied_unsat asimp Hs _ f st I (pol_walk_ok asimp Hs f) Hst He). Qed.
+End Final.
+
+(* ------------------------------------------------------------------ refutation of full soundness *)
+Definition id_simp (t : term) : term := t.
+Lemma id_simp_sound : simp_sound id_simp.
+Proof. intros I t. reflexivity. Qed.
+Lemma id_simp_shape : shape_hyp id_simp.
+Proof. intros t Ht. now apply atomic_litc. Qed.
+
+Definition sym_a := TSym "a" TBool.
+Definition wit_f : term := T OAnd [sym_a; TFalse].          (* And(a, FALSE) *)
+Definition wit_st : cstate := init_state 0 ["a"%string].
+Definition all_true : interp :=
+  {| isym := fun _ _ => VBool true; ifun := fun _ _ _ => VBool true; rdiv0 := fun x => x; idiv0 := fun x => x |}.
+
+Lemma wit_start : start_ok wit_f wit_st.
+Proof. split; [reflexivity|]. intros n ty H. cbn in H. destruct H as [[= <- _]|[]]. now left. Qed.
+
+(* cnf(And(a, FALSE)) = {{a}}: satisfied by a := true, which does not satisfy And(a, FALSE) *)
+Theorem cnf_sound_refuted :
+  exists asimp f st cl st' J, simp_sound asimp /\ start_ok f st /\
+    cnf_convert asimp f st = Some (cl, st') /\ sat J cl = true /\ ~ holds J f.
+Proof.
+  exists id_simp, wit_f, wit_st, [[sym_a]]. eexists. exists all_true.
+  split; [apply id_simp_sound|]. split; [apply wit_start|]. split; [vm_compute; reflexivity|].
+  split; [reflexivity|]. intros H. apply holds_tv in H. discriminate H.
+Qed.
+Theorem pol_sound_refuted :
+  exists asimp f st cl st' J, simp_sound asimp /\ start_ok f st /\
+    pol_convert asimp f st = Some (cl, st') /\ sat J cl = true /\ ~ holds J f.
+Proof.
+  exists id_simp, wit_f, wit_st, [[sym_a]]. eexists. exists all_true.
+  split; [apply id_simp_sound|]. split; [apply wit_start|]. split; [vm_compute; reflexivity|].
+  split; [reflexivity|]. intros H. apply holds_tv in H. discriminate H.
+Qed.
+(* the criterion of the partial theorem detects the witness *)
+Example wit_emptied : cnf_emptied id_simp wit_f wit_st = true /\ pol_emptied id_simp wit_f wit_st = true.
+Proof. split; vm_compute; reflexivity. Qed.
+(* cnf(And(FALSE, FALSE)) is the empty clause set, i.e. TRUE *)
+Example wit_false_false :
+  exists st', cnf_convert id_simp (T OAnd [TFalse; TFalse]) (init_state 0 []) = Some ([], st') /\
+              as_formula [] = TTrue.
+Proof. eexists. split; [vm_compute; reflexivity | reflexivity]. Qed.
+
+(* the hypotheses of the positive theorems are satisfiable by a non-trivial formula:
+   (a & b) | !(c <-> ite(a, b, TRUE)),  manager knowing a, b, c and a user symbol FV0 *)
+Definition ex_f : term :=
+  T OOr [T OAnd [sym_a; TSym "b" TBool];
+         T ONot [T OIff [TSym "c" TBool; T OIte [sym_a; TSym "b" TBool; TTrue]]]].
+Definition ex_st : cstate := init_state 0 ["a"; "b"; "c"; "FV0"]%string.
+Example ex_hypotheses :
+  start_ok ex_f ex_st /\
+  (exists cl st', cnf_convert id_simp ex_f ex_st = Some (cl, st') /\ List.length cl = 11 /\
+                  introduced st' = ["FV1"; "FV2"; "FV3"; "FV4"]%string) /\
+  cnf_emptied id_simp ex_f ex_st = false /\
+  (exists cl st', pol_convert id_simp ex_f ex_st = Some (cl, st') /\ List.length cl = 10) /\
+  pol_emptied id_simp ex_f ex_st = false /\
+  holds all_true ex_f.
+Proof.
+  split.
+  { split; [reflexivity|]. intros n ty H. vm_compute in H.
+    repeat (destruct H as [H|H]; [injection H as <- _; cbn; tauto|]). destruct H. }
+  split; [eexists; eexists; vm_compute; repeat split; reflexivity|].
+  split; [vm_compute; reflexivity|].
+  split; [eexists; eexists; vm_compute; repeat split; reflexivity|].
+  split; [vm_compute; reflexivity|]. apply holds_tv. reflexivity.
+Qed.
